@@ -5,6 +5,7 @@
 (*   [t |-> "n", n |-> 1]            integer                               *)
 (*   [t |-> "b", b |-> TRUE]         boolean                               *)
 (*   [t |-> "a", a |-> <<v1, ...>>]  array                                 *)
+(*   [t |-> "z"]                     null                                  *)
 (*   [t |-> "o", f |-> <<[k |-> "key", v |-> value], ...>>]   object, key  *)
 (*                                   order as written, keys distinct       *)
 (* Objects keep their members as a sequence of pairs so that {} and [] stay*)
@@ -24,6 +25,8 @@ A(a) == [t |-> "a", a |-> a]
 O(f) == [t |-> "o", f |-> f]
 P(k, v) == [k |-> k, v |-> v]
 EmptyO == O(<<>>)
+Z == [t |-> "z"]
+IsZ(x) == x.t = "z"
 
 IsO(x) == x.t = "o"
 IsS(x) == x.t = "s"
